@@ -39,6 +39,8 @@ type specEnv struct {
 	typeOnly   bool
 	depth      int
 	bound      []string
+	nowSt      *State
+	nowOverride map[ssa.Value]string
 }
 
 func (vc *VC) newSpecEnv(fn *ssa.Function, st, old *State) *specEnv {
@@ -503,13 +505,13 @@ func (e *specEnv) object(o types.Object) sval {
 		}
 		if e.fr != nil {
 			if t, ok := e.fr.globalConstLoad(g); ok {
-				return sval{t: t, typ: x.Type()}
+				return sval{t: t, typ: x.Type(), addr: vc.globalAddr(g)}
 			}
 		} else {
 			tmp := vc.newFrame(e.fn, "", 0)
 			tmp.entry = e.st
 			if t, ok := tmp.globalConstLoad(g); ok {
-				return sval{t: t, typ: x.Type()}
+				return sval{t: t, typ: x.Type(), addr: vc.globalAddr(g)}
 			}
 		}
 		addr := vc.globalAddr(g)
@@ -931,7 +933,7 @@ func (e *specEnv) index(n *EIndex) sval {
 	switch t := v.typ.Underlying().(type) {
 	case *types.Slice:
 		i := e.mathInt(e.tr(n.I))
-		addr := vc.ea("(s_arr "+v.t+")", "(+ (s_off "+v.t+") "+i+")")
+		addr := vc.sliceElem(v.t, i)
 		return sval{t: vc.load(e.st, addr, t.Elem()), typ: t.Elem(), addr: addr}
 	case *types.Array:
 		i := e.mathInt(e.tr(n.I))
@@ -1107,7 +1109,18 @@ func (e *specEnv) call(n *ECall) sval {
 	case "old":
 		env := e.clone()
 		env.st = e.old
+		env.nowSt = e.st
+		env.nowOverride = e.override
 		env.override = nil
+		return env.tr(n.Args[0])
+	case "now": // inside old(...): back to the current state
+		if e.nowSt == nil {
+			return e.tr(n.Args[0])
+		}
+		env := e.clone()
+		env.st = e.nowSt
+		env.override = e.nowOverride
+		env.nowSt = nil
 		return env.tr(n.Args[0])
 	case "ite":
 		c := e.trBoolV(n.Args[0])
@@ -1241,6 +1254,18 @@ func (e *specEnv) call(n *ECall) sval {
 			e.fail("addr of a non-lvalue")
 		}
 		return sval{t: a, typ: types.Typ[types.UnsafePointer]}
+	case "backing": // the backing array of a slice (as a reference)
+		v := arg(0)
+		if _, ok := v.typ.Underlying().(*types.Slice); !ok {
+			e.fail("backing needs a slice")
+		}
+		return sval{t: "(s_arr " + v.t + ")", typ: types.Typ[types.UnsafePointer]}
+	case "offset":
+		v := arg(0)
+		if _, ok := v.typ.Underlying().(*types.Slice); !ok {
+			e.fail("offset needs a slice")
+		}
+		return e.goIntFromInt("(s_off " + v.t + ")")
 	case "fresh": // the object was allocated during the call (not allocated in the old state)
 		v := arg(0)
 		r := v.t
